@@ -71,6 +71,8 @@ static int op_powlo_m(int argc, tok_t *a, out_t *o) {
 }
 
 const opdef_t ops_powmlimb[] = {
-  {"mpn_redc_n_l", op_redc_n_l}, {"mpn_powm_m", op_powm_m}, {"mpn_powm_fp", op_powm_fp}, {"mpn_powlo_m", op_powlo_m},
+  {"mpn_redc_n_l", op_redc_n_l}, {"mpn_powm_m", op_powm_m},
+  /* the same calls answered by the model with the real mpn_mulmod_bnm1 inside (Mpir/Model/PowmReal.lean) */
+  {"mpn_redc_n_r", op_redc_n_l}, {"mpn_powm_r", op_powm_m}, {"mpn_powm_fp", op_powm_fp}, {"mpn_powlo_m", op_powlo_m},
   {0, 0}
 };
